@@ -2,16 +2,22 @@
 SPECIFICATION TSpec
 CONSTANTS
   Http10UnsizedCloses = FALSE
-  ChunkedFlagTruthy = FALSE
-  ChunkedSetsTE = FALSE
-  HeadStreamSuppressed = FALSE
-  EmptyBodyNoFlush = FALSE
-  HandlerConnHonored = FALSE
-  HeadReqBodyFramed = FALSE
+  ChunkedFlagTruthy = TRUE
+  ChunkedSetsTE = TRUE
+  HeadStreamSuppressed = TRUE
+  EmptyBodyNoFlush = TRUE
+  HandlerConnHonored = TRUE
+  HeadReqBodyFramed = TRUE
   HeadNoLenReusable = FALSE
   ConnectAware = FALSE
   Http10NoChunkedReq = FALSE
   Expect10Proceeds = FALSE
-  RefusedPrepareCleansWriter = FALSE
+  RefusedPrepareCleansWriter = TRUE
+  FailedPrepareCleansWriter = FALSE
+  WithheldBodyCloses = FALSE
+  HostKeptOnRetry = FALSE
+  CutBodyCloses = TRUE
+  CancelCloses = TRUE
+  FreshHeaderContainer = TRUE
 POSTCONDITION PrintVerdicts
 CHECK_DEADLOCK FALSE
